@@ -25,6 +25,8 @@ CANARIES = {
         ("range-off-by-one", "stix2/v21/observables.py", "int+1", ["65535 -> 65536"], "C02.table"),
         ("super-chain-cut", "stix2/v21/sdo.py", "delete-call-stmt", ["Campaign._check_object_constraints", "super("], "C02.super-chain"),
         ("range-guard-inclusive", "stix2/properties.py", "flip-compare", ["IntegerProperty.clean", "Gt -> GtE"], "C02.clean-contract"),
+        ("uuid-cut-from-the-right", "stix2/properties.py", "text", ['id_.index("--")', 'id_.rindex("--")'], "C02.id-rule"),
+        ("tlp-colour-normalised", "stix2/markings/utils.py", "text", ['color = marking_obj["definition"]["tlp"]', 'color = marking_obj["definition"]["tlp"].strip()'], "C02.tlp"),
     ],
     "C03": [
         ("extra-required", "stix2/v21/sdo.py", "bool-flip", ["Indicator", "True -> False", "default=lambda: False"], "C03.table"),
@@ -34,6 +36,8 @@ CANARIES = {
         ("hard-coded-true", "stix2/properties.py", "kw-true", ["ListProperty.clean", "allow_custom=True", "self.contained("], "C04.forward"),
         ("flag-dropped", "stix2/properties.py", "const-flag-return", ["EmbeddedObjectProperty.clean"], "C04.flag-back"),
         ("strict-refusal-removed", "stix2/properties.py", "drop-raise-guard", ["STIXObjectProperty.clean", "not allow_custom and has_custom"], "C04.flag-back"),
+        ("flag-overwritten-in-loop", "stix2/properties.py", "text", ["has_custom = has_custom or ext.has_custom", "has_custom = ext.has_custom"], "C04.flag-back"),
+        ("custom-type-judged-by-default-version", "stix2/properties.py", "text", ["is_object(obj_type, self.spec_version)", "is_object(obj_type)"], "C04.custom-by-version"),
     ],
     "C05": [
         ("fudge-not-strict", "stix2/versioning.py", "flip-compare", ["_fudge_modified", "LtE -> Lt"], "C05.granularity"),
@@ -79,6 +83,8 @@ CANARIES = {
     "C14": [
         ("version-positional", "stix2/datastore/memory.py", "kw-to-positional", ["_add", "version=version", "parse("], "C14.binding"),
         ("version-not-forwarded", "stix2/datastore/filesystem.py", "drop-keyword", ["FileSystemSource.get", "drop version="], "C14.forward"),
+        ("taxii-all-versions-drops-version", "stix2/datastore/taxii.py", "text", ["self.query(query=query, version=version, _composite_filters", "self.query(query=query, _composite_filters"], "C14.version-in-scope"),
+        ("v20-property-built-with-default-version", "stix2/v20/sdo.py", "text", ["IDProperty(_type, spec_version='2.0')", "IDProperty(_type)"], "C14.version-in-scope"),
     ],
     "C15": [
         ("millisecond-two-digits", "stix2/utils.py", "int-1", ["format_datetime", "3 -> 2", ":3"], "C15.branch-table"),
